@@ -33,6 +33,9 @@ type stage struct {
 }
 
 type plan struct {
+	// Extra: a second part of the same check on the other engine; its
+	// evidence is merged into the property's evidence file.
+	Extra  *plan
 	ID     string
 	Engine string // A or B
 	Level  string
@@ -98,6 +101,17 @@ func main() {
 	p := plans[id]
 	if p == nil {
 		fmt.Fprintf(os.Stderr, "no check for %s (claimed: %s)\n", id, strings.Join(planIDs(), " "))
+		return
+	}
+	if *replay != "" {
+		// a replay file names its engine
+		if r, err := sim.ReadReplay(*replay); err == nil && p.Extra != nil && r.Engine == p.Extra.Engine {
+			p = p.Extra
+			p.ID = id
+		}
+	}
+	if p.Extra != nil && *replay == "" && *selftest == "" {
+		code = runBoth(p, *tier, base, *workers, *scale)
 		return
 	}
 	if p.Engine == "B" {
@@ -548,4 +562,63 @@ func selfTestA(p *plan, base uint64, n int) int {
 func seedOf(base uint64, k string) uint64 {
 	i, _ := strconv.Atoi(k)
 	return sim.Mix(base, uint64(i))
+}
+
+// runBoth runs a check that has parts on both engines and merges the evidence.
+func runBoth(p *plan, tier string, base uint64, workers int, scale float64) int {
+	runPart := func(q *plan) int {
+		if q.Engine == "B" {
+			return runEngineB(q, tier, base, workers, scale, "")
+		}
+		if err := buildEngineA(); err != nil {
+			fmt.Fprintf(os.Stderr, "BUILD-FAILED: %v\n", err)
+			return 2
+		}
+		return runEngineA(q, tier, base, workers, scale)
+	}
+	main := *p
+	main.Extra = nil
+	c1 := runPart(&main)
+	extra := *p.Extra
+	realID := p.ID
+	extra.ID = realID + ".part2"
+	c2 := runPart(&extra)
+	f1 := filepath.Join(verifDir, "evidence", realID+".json")
+	f2 := filepath.Join(verifDir, "evidence", extra.ID+".json")
+	mergeEvidence(f1, f2, realID)
+	os.Remove(f2)
+	if c1 == 1 || c2 == 1 {
+		return 1
+	}
+	if c1 != 0 {
+		return c1
+	}
+	return c2
+}
+
+func mergeEvidence(f1, f2, id string) {
+	var a, b map[string]interface{}
+	b1, err1 := os.ReadFile(f1)
+	b2, err2 := os.ReadFile(f2)
+	if err1 != nil || err2 != nil || json.Unmarshal(b1, &a) != nil || json.Unmarshal(b2, &b) != nil {
+		return
+	}
+	ca, _ := a["coverage"].(map[string]interface{})
+	cb, _ := b["coverage"].(map[string]interface{})
+	if ca == nil || cb == nil {
+		return
+	}
+	num := func(m map[string]interface{}, k string) float64 { v, _ := m[k].(float64); return v }
+	ca["evaluations"] = int(num(ca, "evaluations") + num(cb, "evaluations"))
+	ca["distinct_nontrivial"] = int(num(ca, "distinct_nontrivial") + num(cb, "distinct_nontrivial"))
+	ca["rule"] = fmt.Sprintf("PART 1: %v PART 2: %v", ca["rule"], cb["rule"])
+	sa, _ := ca["samples"].([]interface{})
+	sb, _ := cb["samples"].([]interface{})
+	ca["samples"] = append(sa, sb...)
+	ca["part2"] = cb
+	a["wall_s"] = num(a, "wall_s") + num(b, "wall_s")
+	a["violations"] = int(num(a, "violations") + num(b, "violations"))
+	a["property_id"] = id
+	out, _ := json.MarshalIndent(a, "", " ")
+	os.WriteFile(f1, out, 0644)
 }
